@@ -1,3 +1,307 @@
 package main
 
-func extractRest9(l *loaded, genDir, jsonDir string) error { return nil }
+import (
+	"fmt"
+	"go/ast"
+	"go/token"
+	"path/filepath"
+	"sort"
+	"strconv"
+	"strings"
+)
+
+// ScanSite: one `Finding{…}` literal of the tree scanner: the function it sits in, its pattern and
+// severity constants, and whether its append is guarded by shouldInclude(finding.Severity).
+type ScanSite struct {
+	Func     string `json:"func"`
+	Pattern  string `json:"pattern"`
+	Severity string `json:"severity"`
+	Guarded  bool   `json:"guarded"`
+}
+
+// extractScanTables reads pkg/sql/security/scanner.go: the function-name tables, the system-table
+// lists, severityOrder, the node types scanNode dispatches on (and whether its callback always
+// descends), and every Finding literal of the tree checks.
+func extractRest9(l *loaded, genDir, jsonDir string) error {
+	p := l.pkgs["pkg/sql/security"]
+	if p == nil {
+		return fmt.Errorf("pkg/sql/security not loaded")
+	}
+	strKeys := func(cl *ast.CompositeLit) []string {
+		var out []string
+		for _, e := range cl.Elts {
+			var x ast.Expr = e
+			if kv, ok := e.(*ast.KeyValueExpr); ok {
+				x = kv.Key
+			}
+			if bl, ok := x.(*ast.BasicLit); ok && bl.Kind == token.STRING {
+				s, _ := strconv.Unquote(bl.Value)
+				out = append(out, s)
+			}
+		}
+		return out
+	}
+	lists := map[string][]string{}
+	sevOrder := map[string]int{}
+	var dispatch []string
+	type extraDescent struct {
+		Type  string   `json:"type"`
+		Paths []string `json:"paths"`
+	}
+	var extra []extraDescent
+	descends := true
+	var sites []ScanSite
+	constVal := func(e ast.Expr) string {
+		if id, ok := e.(*ast.Ident); ok {
+			if tv, ok := p.TypesInfo.Types[e]; ok && tv.Value != nil {
+				s, err := strconv.Unquote(tv.Value.ExactString())
+				if err == nil {
+					return s
+				}
+			}
+			return id.Name
+		}
+		return "?"
+	}
+	for _, f := range p.Syntax {
+		for _, d := range f.Decls {
+			switch dd := d.(type) {
+			case *ast.GenDecl:
+				for _, sp := range dd.Specs {
+					vs, ok := sp.(*ast.ValueSpec)
+					if !ok {
+						continue
+					}
+					for i, n := range vs.Names {
+						if i >= len(vs.Values) {
+							continue
+						}
+						cl, ok := vs.Values[i].(*ast.CompositeLit)
+						if !ok {
+							continue
+						}
+						switch n.Name {
+						case "systemTablePrefixes", "systemTableNames":
+							lists[n.Name] = strKeys(cl)
+						case "severityOrder":
+							for _, e := range cl.Elts {
+								kv := e.(*ast.KeyValueExpr)
+								if bl, ok := kv.Value.(*ast.BasicLit); ok {
+									v, _ := strconv.Atoi(bl.Value)
+									sevOrder[constVal(kv.Key)] = v
+								}
+							}
+						}
+					}
+				}
+			case *ast.FuncDecl:
+				if dd.Body == nil || dd.Recv == nil {
+					continue
+				}
+				name := dd.Name.Name
+				if name == "checkFunctionCall" {
+					ast.Inspect(dd.Body, func(n ast.Node) bool {
+						as, ok := n.(*ast.AssignStmt)
+						if !ok || len(as.Lhs) != 1 || len(as.Rhs) != 1 {
+							return true
+						}
+						id, ok := as.Lhs[0].(*ast.Ident)
+						cl, ok2 := as.Rhs[0].(*ast.CompositeLit)
+						if ok && ok2 && (id.Name == "timeBasedFuncs" || id.Name == "dangerousFuncs") {
+							lists[id.Name] = strKeys(cl)
+						}
+						return true
+					})
+				}
+				if name == "scanNode" {
+					ast.Inspect(dd.Body, func(n ast.Node) bool {
+						fl, ok := n.(*ast.FuncLit)
+						if !ok {
+							return true
+						}
+						for _, st := range fl.Body.List {
+							if ts, ok := st.(*ast.TypeSwitchStmt); ok {
+								for _, c := range ts.Body.List {
+									cc := c.(*ast.CaseClause)
+									for _, t := range cc.List {
+										if se, ok := t.(*ast.StarExpr); ok {
+											if sel, ok := se.X.(*ast.SelectorExpr); ok {
+												// a case that returns false for a non-nil node stops the descent
+												stops := false
+												for _, bs := range cc.Body {
+													if rs, ok := bs.(*ast.ReturnStmt); ok && len(rs.Results) == 1 {
+														if id, ok := rs.Results[0].(*ast.Ident); ok && id.Name == "false" {
+															stops = true
+														}
+													}
+												}
+												if stops {
+													descends = false
+												}
+												dispatch = append(dispatch, sel.Sel.Name)
+												// explicit descents: s.scanNode(e.<path>, result)
+												var paths []string
+												for _, bs := range cc.Body {
+													ast.Inspect(bs, func(x ast.Node) bool {
+														ce, ok := x.(*ast.CallExpr)
+														if !ok || len(ce.Args) == 0 {
+															return true
+														}
+														if fs, ok := ce.Fun.(*ast.SelectorExpr); ok && fs.Sel.Name == "scanNode" {
+															var parts []string
+															var cur ast.Expr = ce.Args[0]
+															for {
+																se, ok := cur.(*ast.SelectorExpr)
+																if !ok {
+																	break
+																}
+																parts = append([]string{se.Sel.Name}, parts...)
+																cur = se.X
+															}
+															paths = append(paths, strings.Join(parts, "."))
+														}
+														return true
+													})
+												}
+												if len(paths) > 0 {
+													extra = append(extra, extraDescent{sel.Sel.Name, paths})
+												}
+											}
+										}
+									}
+								}
+							}
+						}
+						// the callback's final statement must be `return true`
+						last := fl.Body.List[len(fl.Body.List)-1]
+						if rs, ok := last.(*ast.ReturnStmt); !ok || len(rs.Results) != 1 {
+							descends = false
+						} else if id, ok := rs.Results[0].(*ast.Ident); !ok || id.Name != "true" {
+							descends = false
+						}
+						return false
+					})
+				}
+				switch name {
+				case "checkBinaryExpression", "checkOrInjection", "checkUnionInjection", "checkFunctionCall":
+					// each Finding literal, then whether the enclosing block appends it under shouldInclude
+					var visit func(blk *ast.BlockStmt)
+					visit = func(blk *ast.BlockStmt) {
+						var cur *ScanSite
+						for _, st := range blk.List {
+							switch s := st.(type) {
+							case *ast.AssignStmt:
+								if len(s.Rhs) == 1 {
+									if cl, ok := s.Rhs[0].(*ast.CompositeLit); ok {
+										if id, ok := cl.Type.(*ast.Ident); ok && id.Name == "Finding" {
+											site := ScanSite{Func: name}
+											for _, e := range cl.Elts {
+												kv := e.(*ast.KeyValueExpr)
+												switch kv.Key.(*ast.Ident).Name {
+												case "Pattern":
+													site.Pattern = constVal(kv.Value)
+												case "Severity":
+													site.Severity = constVal(kv.Value)
+												}
+											}
+											sites = append(sites, site)
+											cur = &sites[len(sites)-1]
+										}
+									}
+								}
+							case *ast.IfStmt:
+								if cur != nil {
+									if ce, ok := s.Cond.(*ast.CallExpr); ok {
+										if sel, ok := ce.Fun.(*ast.SelectorExpr); ok && sel.Sel.Name == "shouldInclude" && len(s.Body.List) == 1 {
+											if as, ok := s.Body.List[0].(*ast.AssignStmt); ok {
+												if c2, ok := as.Rhs[0].(*ast.CallExpr); ok {
+													if id, ok := c2.Fun.(*ast.Ident); ok && id.Name == "append" {
+														cur.Guarded = true
+													}
+												}
+											}
+											cur = nil
+											continue
+										}
+									}
+								}
+								visit(s.Body)
+								if eb, ok := s.Else.(*ast.BlockStmt); ok {
+									visit(eb)
+								}
+							case *ast.BlockStmt:
+								visit(s)
+							case *ast.RangeStmt:
+								visit(s.Body)
+							case *ast.ForStmt:
+								visit(s.Body)
+							}
+						}
+					}
+					visit(dd.Body)
+				}
+			}
+		}
+	}
+	sort.SliceStable(sites, func(i, j int) bool { return sites[i].Func < sites[j].Func })
+	type kv struct {
+		K string
+		V int
+	}
+	var so []kv
+	for k, v := range sevOrder {
+		so = append(so, kv{k, v})
+	}
+	sort.Slice(so, func(i, j int) bool { return so[i].V < so[j].V || (so[i].V == so[j].V && so[i].K < so[j].K) })
+	for _, k := range []string{"timeBasedFuncs", "dangerousFuncs"} {
+		sort.Strings(lists[k])
+	}
+	if err := writeJSON(jsonDir+"/scan_tables.json", map[string]any{"lists": lists, "severity_order": so, "dispatch": dispatch, "extra_descents": extra, "descends": descends, "sites": sites}); err != nil {
+		return err
+	}
+	var b strings.Builder
+	b.WriteString(genHeader)
+	b.WriteString("namespace GoSQLXModel.Gen.Scan\n\n")
+	fmt.Fprintf(&b, "def timeBasedFuncs : List String := %s\n", leanStrList(lists["timeBasedFuncs"]))
+	fmt.Fprintf(&b, "def dangerousFuncs : List String := %s\n", leanStrList(lists["dangerousFuncs"]))
+	fmt.Fprintf(&b, "def systemTablePrefixes : List String := %s\n", leanStrList(lists["systemTablePrefixes"]))
+	fmt.Fprintf(&b, "def systemTableNames : List String := %s\n", leanStrList(lists["systemTableNames"]))
+	b.WriteString("/-- severityOrder, ascending -/\ndef severityOrder : List (String × Nat) := [")
+	for i, e := range so {
+		if i > 0 {
+			b.WriteString(", ")
+		}
+		fmt.Fprintf(&b, "(%s, %d)", leanStr(e.K), e.V)
+	}
+	b.WriteString("]\n")
+	fmt.Fprintf(&b, "/-- node types the ast.Inspect callback of scanNode dispatches on -/\ndef dispatch : List String := %s\n", leanStrList(dispatch))
+	b.WriteString("/-- explicit descents of the callback: s.scanNode(e.<head>.<rest>, result) per dispatched type -/\ndef extraDescents : List (String × List (String × String)) := [")
+	for i, e := range extra {
+		if i > 0 {
+			b.WriteString(", ")
+		}
+		fmt.Fprintf(&b, "(%s, [", leanStr(e.Type))
+		for j, pth := range e.Paths {
+			if j > 0 {
+				b.WriteString(", ")
+			}
+			head, rest, _ := strings.Cut(pth, ".")
+			fmt.Fprintf(&b, "(%s, %s)", leanStr(head), leanStr(rest))
+		}
+		b.WriteString("])")
+	}
+	b.WriteString("]\n")
+	fmt.Fprintf(&b, "/-- the callback returns true for every non-nil node (the traversal is never pruned) -/\ndef descends : Bool := %v\n", descends)
+	b.WriteString("/-- Finding literals of the tree checks: (function, pattern, severity, appended under shouldInclude) -/\ndef sites : List (String × String × String × Bool) := [")
+	for i, s := range sites {
+		if i > 0 {
+			b.WriteString(", ")
+		}
+		fmt.Fprintf(&b, "(%s, %s, %s, %v)", leanStr(s.Func), leanStr(s.Pattern), leanStr(s.Severity), s.Guarded)
+	}
+	b.WriteString("]\n\nend GoSQLXModel.Gen.Scan\n")
+	if _, err := writeIfChanged(filepath.Join(genDir, "ScanTables.lean"), []byte(b.String())); err != nil {
+		return err
+	}
+	return extractRest10(l, genDir, jsonDir)
+}
